@@ -150,6 +150,8 @@ type c13Attempt struct {
 
 type c13Pending struct {
 	cs       *c13Case
+	applied  []c13Xform
+	mk       func(class, needs string, f func(s, i jv) (jv, jv)) int
 	fail     []int // failing instance indices
 	attempts []*c13Attempt
 	// mechanism probes for contains: pairs (list.MatchN view, standalone view)
@@ -236,7 +238,7 @@ func c13Confirm(c *Cfg, o *c13Oracle, cases []*c13Case) {
 			}
 			return false
 		}
-		mk := func(class, needs string, f func(s, i jv) (jv, jv)) {
+		mk := func(class, needs string, f func(s, i jv) (jv, jv)) int {
 			s2, _ := f(cs.schema, maxInst)
 			changed := !sameJV(s2, cs.schema)
 			s2 = nestAllOf(s2)
@@ -253,12 +255,15 @@ func c13Confirm(c *Cfg, o *c13Oracle, cases []*c13Case) {
 				pc.insts = append(pc.insts, j2)
 				pc.instTxt = append(pc.instTxt, t)
 			}
-			if !changed || len(pc.schemaTxt) > 60000 {
-				return
+			if !changed || len(pc.schemaTxt) > 6000 {
+				return 0
 			}
+			pc.probe = true
 			p.attempts = append(p.attempts, &c13Attempt{class: class, needs: needs, probe: pc, ks: fail})
 			probes = append(probes, pc)
+			return 1
 		}
+		p.mk = mk
 		var applied []c13Xform
 		for _, x := range xs {
 			if !needOK(x.needs) {
@@ -271,6 +276,7 @@ func c13Confirm(c *Cfg, o *c13Oracle, cases []*c13Case) {
 				applied = append(applied, x)
 			}
 		}
+		p.applied = applied
 		if len(applied) >= 2 {
 			// all applicable transformations together (several root causes in one schema); the
 			// class is that of the first one
@@ -336,77 +342,115 @@ func c13Confirm(c *Cfg, o *c13Oracle, cases []*c13Case) {
 	if len(pend) == 0 {
 		return
 	}
-	c13RunWorkers(c, probes)
-	// the oracle on every attempt
-	var lines []string
-	for _, p := range pend {
-		for _, a := range p.attempts {
-			if a.probe.importErr != "" {
-				continue
-			}
-			sh := H(a.probe.schemaTxt)
-			for _, it := range a.probe.instTxt {
-				lines = append(lines, "valid "+sh+" "+H(it))
-			}
-		}
-	}
-	ans := o.ask(lines)
-	n := 0
-	for _, p := range pend {
-		for _, a := range p.attempts {
-			if a.probe.importErr != "" {
-				continue
-			}
-			a.oracle = ans[n : n+len(a.probe.instTxt)]
-			n += len(a.probe.instTxt)
-		}
-	}
-	for _, p := range pend {
-		cs := p.cs
-		containsDiffers := false
-		for i := range p.containsA {
-			ca, cb := p.containsA[i], p.containsB[i]
-			if ca.importErr != "" || cb.importErr != "" {
-				continue
-			}
-			for k := range ca.verdicts {
-				if isVerdict(ca.verdicts[k]) && isVerdict(cb.verdicts[k]) && ca.verdicts[k] != cb.verdicts[k] {
-					containsDiffers = true
-				}
-			}
-		}
-		for idx, k := range p.fail {
+	decide := func(final bool) {
+		c13RunWorkers(c, probes)
+		// the oracle on every attempt not yet judged
+		var lines []string
+		for _, p := range pend {
 			for _, a := range p.attempts {
-				if a.probe.importErr != "" || a.oracle == nil {
+				if a.oracle != nil || a.probe.importErr != "" {
 					continue
 				}
-				if a.needs == "contains-standalone-differs" && !containsDiffers {
-					continue
-				}
-				v := a.probe.verdicts[idx]
-				if isVerdict(v) && v == a.oracle[idx] {
-					cs.class[k] = a.class
-					cs.confirm[k] = [2]string{a.probe.schemaTxt, a.probe.instTxt[idx]}
-					cs.confirmVerdict = append(cs.confirmVerdict, [3]string{a.probe.schemaTxt, a.probe.instTxt[idx], v})
-					c.Count("confirmed:" + a.class)
-					break
+				sh := H(a.probe.schemaTxt)
+				for _, it := range a.probe.instTxt {
+					lines = append(lines, "valid "+sh+" "+H(it))
 				}
 			}
-			if cs.class[k] == "" {
-				c.Count("unconfirmed-divergence")
-				if os.Getenv("C13_DEBUG") != "" {
-					fmt.Fprintf(os.Stderr, "UNCONFIRMED %s ;; %s impl=%s oracle=%s flags=%s containsDiffers=%v\n", cs.schemaTxt, cs.instTxt[k], cs.verdicts[k], cs.judged[k].os, cs.flags, containsDiffers)
-					for _, a := range p.attempts {
-						or := "-"
-						v := "-"
-						if a.oracle != nil {
-							or = a.oracle[idx]
-							v = a.probe.verdicts[idx]
+		}
+		ans := o.ask(lines)
+		n := 0
+		for _, p := range pend {
+			for _, a := range p.attempts {
+				if a.oracle != nil || a.probe.importErr != "" {
+					continue
+				}
+				a.oracle = ans[n : n+len(a.probe.instTxt)]
+				n += len(a.probe.instTxt)
+			}
+		}
+		for _, p := range pend {
+			cs := p.cs
+			containsDiffers := false
+			for i := range p.containsA {
+				ca, cb := p.containsA[i], p.containsB[i]
+				if ca.importErr != "" || cb.importErr != "" {
+					continue
+				}
+				for k := range ca.verdicts {
+					if isVerdict(ca.verdicts[k]) && isVerdict(cb.verdicts[k]) && ca.verdicts[k] != cb.verdicts[k] {
+						containsDiffers = true
+					}
+				}
+			}
+			for idx, k := range p.fail {
+				if cs.class[k] != "" {
+					continue
+				}
+				for _, a := range p.attempts {
+					if a.probe.importErr != "" || a.oracle == nil {
+						continue
+					}
+					if a.needs == "contains-standalone-differs" && !containsDiffers {
+						continue
+					}
+					v := a.probe.verdicts[idx]
+					if isVerdict(v) && v == a.oracle[idx] {
+						cs.class[k] = a.class
+						cs.confirm[k] = [2]string{a.probe.schemaTxt, a.probe.instTxt[idx]}
+						cs.confirmVerdict = append(cs.confirmVerdict, [3]string{a.probe.schemaTxt, a.probe.instTxt[idx], v})
+						c.Count("confirmed:" + a.class)
+						break
+					}
+				}
+				if cs.class[k] == "" && final {
+					c.Count("unconfirmed-divergence")
+					if os.Getenv("C13_DEBUG") != "" {
+						fmt.Fprintf(os.Stderr, "UNCONFIRMED %s ;; %s impl=%s oracle=%s flags=%s containsDiffers=%v\n", cs.schemaTxt, cs.instTxt[k], cs.verdicts[k], cs.judged[k].os, cs.flags, containsDiffers)
+						for _, a := range p.attempts {
+							or := "-"
+							v := "-"
+							if a.oracle != nil {
+								or = a.oracle[idx]
+								v = a.probe.verdicts[idx]
+							}
+							fmt.Fprintf(os.Stderr, "    %s[%s] err=%s impl=%s oracle=%s  %s ;; %s\n", a.class, a.needs, a.probe.importErr, v, or, a.probe.schemaTxt, a.probe.instTxt[idx])
 						}
-						fmt.Fprintf(os.Stderr, "    %s[%s] err=%s impl=%s oracle=%s  %s ;; %s\n", a.class, a.needs, a.probe.importErr, v, or, a.probe.schemaTxt, a.probe.instTxt[idx])
 					}
 				}
 			}
 		}
 	}
+	decide(false)
+	// second round, only for what is still unexplained: two root causes at once (pairs of
+	// transformations; the class is that of the first)
+	probes = nil
+	for _, p := range pend {
+		left := false
+		for _, k := range p.fail {
+			if p.cs.class[k] == "" {
+				left = true
+			}
+		}
+		if !left || len(p.applied) < 2 {
+			continue
+		}
+		for i := 0; i < len(p.applied); i++ {
+			for j := i + 1; j < len(p.applied); j++ {
+				a, b := p.applied[i], p.applied[j]
+				needs := "pair"
+				if a.needs == "contains-standalone-differs" || b.needs == "contains-standalone-differs" {
+					needs = "contains-standalone-differs"
+				}
+				p.mk(a.class, needs, func(s, i jv) (jv, jv) {
+					if a.needs == "recursive-ref" { // inlining last
+						s, i = b.fn(s, i)
+						return a.fn(s, i)
+					}
+					s, i = a.fn(s, i)
+					return b.fn(s, i)
+				})
+			}
+		}
+	}
+	decide(true)
 }
